@@ -23,11 +23,15 @@ EXPLANATION = (
     "holding the acting entity (position, grid, holdings) are selections with an identity alternative (the incoming "
     "value) guarded by a test on the action / mask, or the action is replaced by the no-op constant when masked out "
     "(Maze: select(mask[a], a, 4) with identity branch 4; RobotWarehouse: cond(mask[a], a, 0) with NOOP = 0; Sokoban: "
-    "NOOP sentinel). Not decided: exact penalty values; that nothing else changes beyond the named fields.")
+    "NOOP sentinel). (R5) reward and done function classes store each constructor parameter under its own name (no crossing such as invalid_action_reward <- revealed_mine_reward). Not decided: exact penalty values; that nothing else changes beyond the named fields.")
 
 TERMINATE_ON_INVALID = ["TSP", "CVRP", "Knapsack", "BinPack", "JobShop", "GraphColoring", "Sudoku", "Minesweeper", "Snake", "Tetris", "Cleaner"]
 UNTOUCHED = {"TSP": None, "CVRP": None, "Knapsack": None,
              "BinPack": ("action_mask", "sorted_ems_indexes")}   # derived views recomputed after the guarded update
+# environments whose every reward function selects on the validity value on the pinned tree (reference for later changes)
+R4_REFERENCE = {"Tetris": "documented: reward multiplied by validity", "GraphColoring": "documented penalty -num_nodes",
+                "JobShop": "documented penalty", "Minesweeper": "documented invalid-action reward", "Knapsack": "zero reward when invalid",
+                "TSP": "penalty when invalid", "CVRP": "penalty when invalid", "BinPack": "zero / penalty when invalid"}
 IGNORE = {
     "Maze": ["agent_position"],
     "SlidingTilePuzzle": ["puzzle", "empty_tile_position"],
@@ -156,8 +160,12 @@ def check(tier: str) -> Result:
         for rw in rewards:
             t = strip_cast(rw)
             if not contains(t, Vc):
-                res.add("C05.R4", site, fn, "when the action is invalid the reward is the invalid-move reward (not overridden by another condition)", None,
-                        f"reward {txt(t, 3, 90)} does not depend on the validity value: not decided", nontrivial=False)
+                if name in R4_REFERENCE:
+                    res.add("C05.R4", site, fn, "when the action is invalid the reward is the invalid-move reward (not overridden by another condition)", False,
+                            f"reward {txt(t, 3, 90)} no longer depends on the validity value ({R4_REFERENCE[name]}): an invalid action is rewarded like a valid one")
+                else:
+                    res.add("C05.R4", site, fn, "when the action is invalid the reward is the invalid-move reward (not overridden by another condition)", None,
+                            f"reward {txt(t, 3, 90)} does not depend on the validity value: not decided", nontrivial=False)
                 continue
             path = []
             verdict = None
@@ -295,6 +303,8 @@ def check(tier: str) -> Result:
     res.add("C05.R3", *env_site(ea, "step"), "a new tile is spawned only when the move is valid (guard = mask at the action)", bool(ok and else_plain),
             f"guard {txt(nv.args[1], 3, 80) if nv.kind == 'choice' else txt(nv, 3, 80)}; else-branch draws no random tile: {bool(else_plain)}")
     n_sites += 4
+    from . import wiring
+    n_w = wiring.add_obligations(res, tree, "C05.R5", lambda ci: ci.module.name.endswith((".reward", ".done")) and ci.module.name.startswith("jumanji.environments."))
     res.analysed = {"terminate_on_invalid": TERMINATE_ON_INVALID, "untouched_state": list(UNTOUCHED) + ["Cleaner"],
                     "ignore_invalid": list(IGNORE) + ["Game2048", "RobotWarehouse"], "sites": n_sites}
     res.assumptions = ["lax.cond / select / where pick their else-alternative when the guard is false",
